@@ -599,6 +599,7 @@ struct MiriRun {
     failures: Vec<Finding>,
     harness_error: Option<String>,
     summary: Value,
+    value_mismatch_panics: u64,
 }
 
 fn miri_invoke(args: &[String], flags: &str) -> (bool, String) {
@@ -629,6 +630,12 @@ fn miri_batch(label: &str, args: Vec<String>, nseeds: u32, seed: u64, out: &mut 
         return;
     }
     let failing = text.lines().find_map(|l| l.strip_prefix("FAILING SEED: ").and_then(|s| s.trim().parse::<u64>().ok()));
+    // a harness assertion on VALUES (content differs from the model) is C11's business, not a
+    // memory-management failure: note it and move on
+    if text.contains("panicked at") && !text.contains("Undefined Behavior") && !text.contains("memory leaked") {
+        out.value_mismatch_panics += 1;
+        return;
+    }
     let err_line = text.lines().find(|l| l.starts_with("error:")).unwrap_or("").to_string();
     match failing {
         Some(ms) if err_line.contains("Undefined Behavior") || err_line.contains("memory leaked") || err_line.contains("deadlock") || err_line.contains("panicked") || !err_line.is_empty() => {
@@ -659,7 +666,7 @@ fn miri_batch(label: &str, args: Vec<String>, nseeds: u32, seed: u64, out: &mut 
 }
 
 fn miri_part(thorough: bool, seed: u64) -> MiriRun {
-    let mut out = MiriRun { executions: 0, failures: vec![], harness_error: None, summary: Value::Null };
+    let mut out = MiriRun { executions: 0, failures: vec![], harness_error: None, summary: Value::Null, value_mismatch_panics: 0 };
     let t0 = Instant::now();
     let (n_single, n_thread_batches, n_thread_seeds, steps) = if thorough { (1024u32, 24u32, 128u32, 60u32) } else { (96, 3, 48, 40) };
     // (a) single-thread histories: one history per interpreter seed
@@ -683,6 +690,7 @@ fn miri_part(thorough: bool, seed: u64) -> MiriRun {
         "miri_thread_histories_x_schedule_seeds": format!("{n_thread_batches} x {n_thread_seeds} + one history per seed"),
         "miri_flags": "-Zmiri-permissive-provenance -Zmiri-preemption-rate=0.1 -Zmiri-many-seeds",
         "miri_wall_s": t0.elapsed().as_secs_f64(),
+        "miri_batches_stopped_by_a_value_assertion_other_property": out.value_mismatch_panics,
         "F10_preemption_between_threads": "every thread-scenario execution runs 3 threads + main under Miri's seeded scheduler",
     });
     out
